@@ -1,0 +1,110 @@
+//! Verification hooks (cargo feature `verif`) that need access to the vm's private state
+use super::Vm;
+use crate::source::Source;
+use laythe_core::{
+  constants::SELF,
+  object::ObjectKind,
+  val,
+  value::Value,
+  verif as core_verif,
+};
+use std::fmt::Write;
+use std::path::PathBuf;
+
+impl Vm {
+  /// Compile a source as the main module without executing it. Returns the script function
+  /// and the number of property and invoke cache slots of the module
+  pub fn verif_compile(&mut self, source_content: &str, repl: bool) -> Result<(Value, usize, usize), usize> {
+    let module_path = PathBuf::from("/v/main.lay");
+    let source_content = self.manage_str(source_content);
+    self.push_root(source_content);
+    let source = Source::new(source_content);
+
+    let managed_path = self.manage_str(module_path.to_string_lossy());
+    self.push_root(managed_path);
+    let file_id = self.files.upsert(managed_path, source_content);
+    self.pop_roots(2);
+
+    let main_module = self.module(SELF, &managed_path);
+    match self.compile(repl, main_module, &source, file_id) {
+      Ok(fun) => {
+        // keep the function alive for the caller
+        self.push_root(fun);
+        let cache = &self.inline_cache[main_module.id()];
+        Ok((val!(fun), cache.verif_property_len(), cache.verif_invoke_len()))
+      },
+      Err(errors) => Err(errors.len()),
+    }
+  }
+
+  /// Force a full collection and report what the collector believes it holds
+  pub fn verif_post_stats(&mut self) -> String {
+    // ten collections guarantee a full sweep whatever the current count is
+    for _ in 0..10 {
+      let mut gc = self.gc.borrow_mut();
+      gc.collect_garbage(self);
+    }
+    let gc = self.gc.borrow();
+    format!(
+      "{{\"bytes\":{},\"temp_roots\":{}}}",
+      gc.allocated(),
+      gc.temp_roots()
+    )
+  }
+
+  /// Describe every native reachable from the global module as json
+  pub fn verif_natives_dump(&self) -> String {
+    let mut out: Vec<String> = Vec::new();
+    let module = self.global_module;
+    for (name, value) in module.verif_symbols() {
+      if !value.is_obj() {
+        continue;
+      }
+      let obj = value.to_obj();
+      match obj.kind() {
+        ObjectKind::Native => {
+          let native = obj.to_native();
+          out.push(format!(
+            "{{\"owner\":null,\"name\":{},\"static\":false,\"sig\":{}}}",
+            core_verif::json_str(&name),
+            native.verif_signature_json()
+          ));
+        },
+        ObjectKind::Class => {
+          let class = obj.to_class();
+          let mut s = String::new();
+          for (mname, method) in class.verif_methods() {
+            if method.is_obj() && method.to_obj().is_kind(ObjectKind::Native) {
+              let native = method.to_obj().to_native();
+              let _ = write!(
+                s,
+                "{{\"owner\":{},\"name\":{},\"static\":false,\"sig\":{}}}",
+                core_verif::json_str(&name),
+                core_verif::json_str(&mname),
+                native.verif_signature_json()
+              );
+              out.push(std::mem::take(&mut s));
+            }
+          }
+          if let Some(meta) = class.meta_class() {
+            for (mname, method) in meta.verif_methods() {
+              if method.is_obj() && method.to_obj().is_kind(ObjectKind::Native) {
+                let native = method.to_obj().to_native();
+                let _ = write!(
+                  s,
+                  "{{\"owner\":{},\"name\":{},\"static\":true,\"sig\":{}}}",
+                  core_verif::json_str(&name),
+                  core_verif::json_str(&mname),
+                  native.verif_signature_json()
+                );
+                out.push(std::mem::take(&mut s));
+              }
+            }
+          }
+        },
+        _ => (),
+      }
+    }
+    format!("[{}]", out.join(","))
+  }
+}
